@@ -11,6 +11,7 @@ import shutil
 import numpy as np
 import torch
 
+from . import c14_ext as cx
 from . import ser_classes
 from . import ser_common as sc
 
@@ -105,24 +106,24 @@ class AttrNestedGen(sc.Gen):
 SMALL_NAMES = ["gain", "w", "count", "note", "arr", "t", "lst", "p", "mid", "leaf", "cfg"]
 
 
-def gen_tree(rng, depth):
+def gen_tree(rng, depth, classes=("SA", "SB", "SC"), pool=None):
     """structured attribute-nested object tree: 1-2 child objects per level down to `depth`, leaf
     attributes drawn from a SMALL name pool so that a name may occur at some levels and be missing
     at intermediate ones"""
     g = AttrNestedGen(rng, {"rng_in_container": True, "fallback_in_container": True})
     attrs = []
-    names = rng.sample(SMALL_NAMES, rng.randint(1, 5))
+    names = rng.sample(pool or SMALL_NAMES, rng.randint(1, 5))
     for k in names:
         if depth > 0 and rng.chance(0.45):
-            attrs.append([k, gen_tree(rng, depth - 1)])
+            attrs.append([k, gen_tree(rng, depth - 1, classes, pool)])
         else:
             attrs.append([k, rng.weighted([
                 (lambda: ["scalar", sc.S(sc.gen_scalar(rng))], 5), (lambda: ["path", "a/b"], 1),
                 (lambda: sc.gen_ndarray(rng), 2), (lambda: sc.gen_tensor(rng), 3), (lambda: sc.gen_npscalar(rng), 1),
                 (lambda: ["mk_module", "Linear", rng.randint(0, 3)], 1), (lambda: g.value(1, False), 3)])()])
     if depth > 0 and not any(v[0] == "obj" for _, v in attrs):
-        attrs.append(["child", gen_tree(rng, depth - 1)])
-    return ["obj", rng.choice(["SA", "SB", "SC"]), attrs]
+        attrs.append(["child", gen_tree(rng, depth - 1, classes, pool)])
+    return ["obj", rng.choice(list(classes)), attrs]
 
 
 def names_by_depth(spec, d=0, acc=None):
@@ -362,6 +363,273 @@ def same_name_types_stream(ctx, drv):
     ctx.dist["same_name_type_cases"] += k
 
 
+# =================================================================================================
+# growth round 5: extended streams (model: Model/SerializeSkipExt.lean, driver ops roundtripX / history / ptychoskip)
+# =================================================================================================
+ALLTYPES = dict(TYPES, SD=cx.SD, **cx.XTYPES)
+XCLASSES = ("SA", "SB", "SC", "SD", "SD")
+XPOOL = SMALL_NAMES
+
+
+def obj_nodes(recipe, acc=None):
+    acc = acc if acc is not None else []
+    if recipe[0] == "obj":
+        acc.append(recipe)
+        for _, v in recipe[2]:
+            obj_nodes(v, acc)
+    return acc
+
+
+def plant_poison(rng, recipe, kind):
+    """put a value that cannot be pickled somewhere into the tree: directly as an attribute, or inside
+    a list / dict attribute; returns the names of the attributes that have to be skipped to save it"""
+    node = rng.choice(obj_nodes(recipe))
+    how = rng.weighted([("attr", 5), ("list", 2), ("dict", 1)])
+    name = rng.choice(["handle", "res", "conn"])
+    node[2][:] = [kv for kv in node[2] if kv[0] != name]
+    val = ["poison", kind]
+    if how == "list":
+        val = ["list", [["scalar", sc.S("a")], val, ["scalar", sc.S(2)]]]
+    elif how == "dict":
+        val = ["dict", [["k", ["scalar", sc.S(1)]], ["h", val]]]
+    node[2].insert(rng.randint(0, len(node[2])), [name, val])
+    return name, how
+
+
+def run_real_x(obj, store, py_save, py_load, tag, want_summary=True):
+    """save / stored tree / load on the real code; every stage reports its own outcome"""
+    from quantem.core.io import serialize
+    base = os.path.join(scratch(), f"x{tag}")
+    shutil.rmtree(base, ignore_errors=True)
+    os.makedirs(base)
+    path = os.path.join(base, "o.zip" if store == "zip" else "odir")
+    out = {}
+    try:
+        with cx.quiet():
+            try:
+                obj.save(path, store=store, skip=py_save)
+            except Exception as e:  # noqa
+                out["save_err"] = type(e).__name__
+                out["save_msg"] = str(e)[:150]
+                out["leftover"] = sorted(os.listdir(base))
+                return out
+            if want_summary:
+                out["stored"] = cx.store_summary(path, ALLTYPES)
+            try:
+                out["loaded"] = sc.observe(serialize.load(path, skip=py_load))
+            except Exception as e:  # noqa
+                out["load_err"] = type(e).__name__
+                out["load_msg"] = str(e)[:150]
+        return out
+    finally:
+        shutil.rmtree(base, ignore_errors=True)
+
+
+def check_case_x(ctx, drv, recipe, save_arg, load_arg, store, idx, form="list"):
+    obj = cx.XBuilder(None).build(recipe)
+    spec = cx.spec_of(recipe)
+    case = {"x": True, "recipe": recipe, "save": save_arg, "load": load_arg, "store": store, "form": form}
+    ctx.count()
+    r = run_real_x(obj, store, cx.py_arg(save_arg, ALLTYPES, form), cx.py_arg(load_arg, ALLTYPES, "tuple" if form == "list" else "list"), idx)
+    m = drv.ask({"op": "roundtripX", "v": spec, "skip_save": save_arg, "skip_load": load_arg})
+    if "driver" in str(m.get("err", "")):
+        raise RuntimeError(m)
+    # ---- correspondence, stage by stage
+    m_save_err = m["err"].split(":", 1)[1] if str(m.get("err", "")).startswith("save:") else None
+    if (m_save_err or None) != r.get("save_err"):
+        ctx.disagree("x-save-outcome", case, {"save_err": m_save_err}, {"save_err": r.get("save_err"), "msg": r.get("save_msg")})
+    if r.get("save_err") and r.get("leftover"):
+        ctx.disagree("x-failed-save-leaves-files", case, [], r["leftover"])
+    if "stored" in r and "stored" in m:
+        a, b = cx.canon_summary(m["stored"]), cx.canon_summary(r["stored"])
+        if a != b:
+            which = [k for k in ("names", "types", "tree") if a[k] != b[k]][0]
+            ctx.disagree(f"x-stored-{which}", case, sc.short(a[which], 400), sc.short(b[which], 400),
+                         note="recorded skip lists / keys written per object group")
+    if "loaded" in r:
+        if "ok" not in m or sc.canon_order(m["ok"]) != sc.canon_order(r["loaded"]):
+            ctx.disagree("x-load", case, sc.canon_order(m["ok"]) if "ok" in m else m, sc.canon_order(r["loaded"]))
+    elif "load_err" in r and m.get("err") != r["load_err"]:
+        ctx.disagree("x-load", case, m.get("err", "ok"), {"err": r["load_err"], "msg": r.get("load_msg")})
+    # ---- the property on the implementation (oracle: Python's isinstance on the live object)
+    names = set(cx.arg_names(save_arg)) | set(cx.arg_names(load_arg))
+    tys, tyl = cx.arg_types(save_arg), cx.arg_types(load_arg)
+    junk = any(x[0] == "o" for x in cx.arg_items(save_arg) + cx.arg_items(load_arg))
+    want = cx.strip_live(obj, names, [ALLTYPES[t] for t in tys])
+    removed = len(json.dumps(want)) != len(json.dumps(cx.strip_live(obj, set(), [])))
+    if cx.has_unknown(cx.strip_live(obj, set(cx.arg_names(save_arg)), [ALLTYPES[t] for t in tys])):
+        # an unpicklable attribute that the SAVE-time lists do not remove: the property is silent; correspondence only
+        ctx.dist["x:unsupported-attribute-not-skipped"] += 1
+    elif tyl or junk:
+        ctx.dist["x:load-time-types-or-non-str-entries(correspondence only)"] += 1
+    elif "save_err" in r:
+        ctx.pred_fail(f"skip-save-raises:{r['save_err']}", "save with skip lists raised", case, observed=r.get("save_msg"), required="stripped graph")
+    elif "load_err" in r:
+        ctx.pred_fail(f"skip-load-raises:{r['load_err']}", "load of a file saved with skip lists raised", case, observed=r.get("load_msg"), required="stripped graph")
+    else:
+        d = sc.prop_equal(want, r["loaded"])
+        if d:
+            kind = "names" if d[0].endswith(".names") else "value"
+            ctx.pred_fail(f"skip-x:{kind}", f"loaded graph is not the stripped graph at {d[0]}", case,
+                          observed=sc.short(d[2]), required=sc.short(d[1]))
+    if removed:
+        ctx.mark(("x", len(names), tuple(sorted(tys)), tuple(sorted(tyl)), sc.val_depth(spec), "save_err" in r))
+    for t in tys:
+        ctx.dist[f"x:type:{t}"] += 1
+    ctx.dist[f"x:save-arg:{'bare' if 'seq' not in save_arg else form}"] += 1
+    ctx.dist[f"x:load-types:{len(tyl)}"] += 1
+    ctx.dist[f"x:junk:{junk}"] += 1
+    ctx.dist[f"x:save-outcome:{r.get('save_err', 'ok')}"] += 1
+    ctx.sample(case, limit=1)
+
+
+def ext_stream(ctx, drv):
+    """classes that provide names themselves, abstract base classes / `object` as skip types, the call
+    forms of `skip`, load-time type skipping, an unpicklable attribute that is or is not skipped"""
+    n = ctx.n(130, 1300)
+    for i in range(n):
+        rng = ctx.rng.fork(50000 + i)
+        recipe = gen_tree(rng, rng.weighted([(0, 1), (1, 3), (2, 4), (3, 2)]), XCLASSES, XPOOL)
+        poison = None
+        if rng.chance(0.3):
+            poison = plant_poison(rng, recipe, rng.choice(["obj", "gen"]))
+        spec = cx.spec_of(recipe)
+        nd = names_by_depth(spec)
+        pool = sorted(nd)
+        names = rng.sample(pool, rng.randint(0, min(2, len(pool)))) if pool else []
+        if rng.chance(0.5):
+            names.append(rng.choice(cx.CLASS_LEVEL_NAMES))          # a name the CLASS provides (present or not on the instance)
+        if poison and rng.chance(0.75):
+            names.append(poison[0])
+        names = sorted(set(names))
+        split = rng.weighted([("save", 4), ("load", 3), ("both", 2), ("mixed", 2)])
+        ns_save = names if split in ("save", "both") else (names[::2] if split == "mixed" else [])
+        ns_load = names if split in ("load", "both") else (names[1::2] if split == "mixed" else [])
+        if poison and poison[0] in names and poison[0] not in ns_save:
+            ns_save = ns_save + [poison[0]]                         # an unpicklable attribute can only be skipped at save time
+        tys = []
+        for _ in range(rng.weighted([(0, 3), (1, 5), (2, 2)])):
+            t = rng.choice(cx.ABC_NAMES) if rng.chance(0.7) else rng.choice(sorted(TYPES))
+            if t not in tys:
+                tys.append(t)
+        tyl = [rng.choice(["ndarray", "Tensor", "Generator", "list", "dict", "SA", "SD", "int", "Linear", "Parameter", "tuple"])] if rng.chance(0.2) else []
+        junk = rng.chance(0.06)
+        save_arg = cx.make_arg(rng, ns_save, tys, junk)
+        load_arg = cx.make_arg(rng, ns_load, tyl, False)
+        check_case_x(ctx, drv, recipe, save_arg, load_arg, rng.choice(["zip", "dir"]), i, rng.choice(["list", "tuple"]))
+
+
+def run_history(ctx, drv, pool_recipes, ops, store, idx):
+    """a history of save / load calls on the same live objects and one directory: every call's outcome
+    is compared with the model (`srun`), and every load is compared with the stripped graph of the
+    last save that RETURNED to that path (whatever was rejected or raised before and in between)"""
+    from quantem.core.io import serialize
+    case = {"hist": True, "pool": pool_recipes, "ops": ops, "store": store}
+    objs = [cx.XBuilder(None).build(r) for r in pool_recipes]
+    specs = [cx.spec_of(r) for r in pool_recipes]
+    before = [cx.strip_live(o, set(), []) for o in objs]
+    base = os.path.join(scratch(), f"h{idx}")
+    shutil.rmtree(base, ignore_errors=True)
+    os.makedirs(base)
+
+    def real_path(p):
+        return os.path.join(base, p + (".zip" if store == "zip" else ""))
+    outs, last = [], {}
+    try:
+        for op in ops:
+            ctx.count()
+            try:
+                with cx.quiet():
+                    if op["k"] == "save":
+                        existed = os.path.exists(real_path(op["path"]))
+                        objs[op["obj"]].save(real_path(op["path"]), mode="o" if op.get("overwrite") else "w", store=store,
+                                             skip=cx.py_arg(op["skip"], ALLTYPES, "tuple" if len(outs) % 2 else "list"),
+                                             compression_level=11 if op.get("bad_level") else 3)
+                        outs.append({"saved": True})
+                        last[op["path"]] = op
+                    else:
+                        back = serialize.load(real_path(op["path"]), skip=cx.py_arg(op["skip"], ALLTYPES))
+                        outs.append({"loaded": sc.observe(back)})
+            except Exception as e:  # noqa
+                outs.append({"raised": type(e).__name__, "msg": str(e)[:120]})
+            o = outs[-1]
+            # ---- the property on the implementation
+            if op["k"] == "save":
+                want = cx.strip_live(objs[op["obj"]], set(cx.arg_names(op["skip"])), [ALLTYPES[t] for t in cx.arg_types(op["skip"])])
+                valid = not op.get("bad_level") and (not existed or op.get("overwrite"))
+                if "raised" in o and valid and not cx.has_unknown(want):
+                    ctx.pred_fail(f"history-save-raises:{o['raised']}", "a valid save(skip=…) raised after earlier calls on the same objects", case,
+                                  observed=o["msg"], required="saved")
+            elif op["path"] in last and not cx.arg_types(op["skip"]):
+                sv = last[op["path"]]
+                names = set(cx.arg_names(sv["skip"])) | set(cx.arg_names(op["skip"]))
+                want = cx.strip_live(objs[sv["obj"]], names, [ALLTYPES[t] for t in cx.arg_types(sv["skip"])])
+                if cx.has_unknown(want):
+                    pass
+                elif "raised" in o:
+                    ctx.pred_fail(f"history-load-raises:{o['raised']}", "load of a completed save raised", case, observed=o["msg"], required="stripped graph")
+                else:
+                    d = sc.prop_equal(want, o["loaded"])
+                    if d:
+                        kind = "names" if d[0].endswith(".names") else "value"
+                        ctx.pred_fail(f"history-load:{kind}", f"after a history of calls the loaded graph is not the stripped graph of the last completed save at {d[0]} "
+                                      f"(call {len(outs) - 1} of {len(ops)})", case, observed=sc.short(d[2]), required=sc.short(d[1]))
+    finally:
+        shutil.rmtree(base, ignore_errors=True)
+    m = drv.ask({"op": "history", "pool": specs, "ops": ops})
+    if "ok" not in m:
+        raise RuntimeError(m)
+    for j, (a, b) in enumerate(zip(m["ok"], outs)):
+        ca = {"loaded": sc.canon_order(a["loaded"])} if "loaded" in a else a
+        cb = {"loaded": sc.canon_order(b["loaded"])} if "loaded" in b else {k: v for k, v in b.items() if k != "msg"}
+        if ca != cb:
+            ctx.disagree("history", dict(case, first_differing_call=j), sc.short(ca, 300), sc.short(cb, 300) + " " + str(b.get("msg", "")),
+                         note="outcome of one call of the history")
+            break
+    after = [cx.strip_live(o, set(), []) for o in objs]
+    if after != before:
+        ctx.disagree("history-live-object-changed", case, "unchanged", "changed", note="save()/load() must not modify the live objects")
+    ctx.mark(("hist", len(ops), tuple("r" if "raised" in o else ("s" if "saved" in o else "l") for o in outs)))
+    for o in outs:
+        ctx.dist["hist:" + ("raised:" + o["raised"] if "raised" in o else ("saved" if "saved" in o else "loaded"))] += 1
+    ctx.sample(case, limit=1)
+
+
+def history_stream(ctx, drv):
+    n = ctx.n(45, 450)
+    for i in range(n):
+        rng = ctx.rng.fork(70000 + i)
+        store = rng.choice(["zip", "dir"])
+        pool, poison, pools = [], [], []
+        for _ in range(rng.choice([1, 1, 2])):
+            r = gen_tree(rng, rng.weighted([(1, 3), (2, 4), (3, 2)]), XCLASSES, XPOOL)
+            poison.append(plant_poison(rng, r, rng.choice(["obj", "gen"])) + (None,) if rng.chance(0.8) else None)
+            pool.append(r)
+            pools.append(sorted(names_by_depth(cx.spec_of(r))))
+
+        def gen_skip(j, cover):
+            names = rng.sample(pools[j], rng.randint(0, min(2, len(pools[j]))))
+            tys = [rng.choice(cx.ABC_NAMES + ["ndarray", "Tensor", "int", "dict"])] if rng.chance(0.25) else []
+            if cover and poison[j]:
+                names.append(poison[j][0])
+            return cx.make_arg(rng, sorted(set(names)), tys)
+        ops = []
+        for _ in range(rng.randint(2, 6)):
+            if rng.chance(0.62):
+                j = rng.below(len(pool))
+                ops.append({"k": "save", "obj": j, "path": rng.choice(["p0", "p1", "p2"]), "overwrite": rng.chance(0.6),
+                            "bad_level": rng.chance(0.1), "skip": gen_skip(j, rng.chance(0.5))})
+            else:
+                ops.append({"k": "load", "path": rng.choice(["p0", "p1", "p2"]),
+                            "skip": cx.make_arg(rng, rng.sample(pools[0], min(len(pools[0]), rng.randint(0, 2))),
+                                                ["ndarray"] if rng.chance(0.1) else [])})
+        # the retry pattern: the same live object again, this time naming the offending attribute
+        j = rng.below(len(pool))
+        ops.append({"k": "save", "obj": j, "path": "pz", "overwrite": False, "bad_level": False, "skip": gen_skip(j, True)})
+        ops.append({"k": "load", "path": "pz", "skip": cx.make_arg(rng, rng.sample(pools[j], min(len(pools[j]), rng.randint(0, 2))), [])})
+        run_history(ctx, drv, pool, ops, store, i)
+
+
 def run(ctx):
     from qv.driver import Driver
     drv = Driver("C14")
@@ -405,6 +673,8 @@ def run(ctx):
             ctx.dist[f"max_name_depth:{max([max(nd[k]) for k in names if k in nd] + [-1])}"] += 1
             ctx.dist[f"types_hit_nested:{sum(1 for t in types if t in nested_types)}"] += 1
             check_case(ctx, drv, recipe, names, types, rng.choice(["zip", "dir"]), i)
+        ext_stream(ctx, drv)
+        history_stream(ctx, drv)
         ptycho_stream(ctx)
     finally:
         drv.close()
@@ -421,6 +691,12 @@ def replay(ctx, rep):
         return True
     drv = Driver("C14")
     try:
+        if case.get("x"):
+            check_case_x(ctx, drv, case["recipe"], case["save"], case["load"], case["store"], "replay", case.get("form", "list"))
+            return True
+        if case.get("hist"):
+            run_history(ctx, drv, case["pool"], case["ops"], case["store"], "replay")
+            return True
         check_case(ctx, drv, case["recipe"], case["names"], case["types"], case["store"], "replay")
     finally:
         drv.close()
